@@ -119,7 +119,7 @@ def m_close(I, fn, n, args, st):
             ev(I, "close-raw", fn, n, a, st)
     ev(I, "close", fn, n, args[0], st)
     # a failing close (EINTR, EIO) has released the descriptor all the same (Linux; POSIX leaves it unspecified)
-    return [(s, fs(0)), (with_errno(s, I.pos()), fs(-1))]
+    return [(s, fs(0)), (s, fs(-1))]
 
 
 def m_fork(I, fn, n, args, st):
